@@ -551,6 +551,8 @@ class SparselyBin(Factory, Container):
                         raise JsonFormatException(i, "SparselyBin.bins key must be an integer")
 
                 bins = {int(i): binsFactory.fromJsonFragment(v, binsName) for i, v in json["bins"].items()}
+                if len(bins) != len(json["bins"]):
+                    raise JsonFormatException(json, "SparselyBin.bins (two keys denote the same index)")
 
             else:
                 raise JsonFormatException(json, "SparselyBin.bins")
